@@ -81,14 +81,53 @@ func (w *World) effectsOf(fn *types.Func) *Effects {
 		return newEffects() // recursion: fixpoint approximated by the other members of the cycle
 	}
 	w.effBusy[fn] = true
+	saved := w.skipTerminating
+	w.skipTerminating = nil
 	eff := w.scanEffects(fi.Pkg.TypesInfo, fi.Decl.Body)
+	w.skipTerminating = saved
 	delete(w.effBusy, fn)
 	w.effMemo[fn] = eff
 	return eff
 }
 
+// bodyWrites: effects of a loop body on paths that can reach the back edge (blocks that end in
+// return/panic and contain no continue are skipped).
 func (w *World) bodyWrites(e *Env, body *ast.BlockStmt) *Effects {
+	w.skipTerminating = body
+	defer func() { w.skipTerminating = nil }()
 	return w.scanEffects(e.Info, body)
+}
+
+func blockTerminates(x *ast.BlockStmt) bool {
+	if len(x.List) == 0 {
+		return false
+	}
+	switch l := x.List[len(x.List)-1].(type) {
+	case *ast.ReturnStmt:
+	case *ast.ExprStmt:
+		call, ok := l.X.(*ast.CallExpr)
+		if !ok {
+			return false
+		}
+		if id, ok := call.Fun.(*ast.Ident); !ok || id.Name != "panic" {
+			return false
+		}
+	default:
+		return false
+	}
+	found := false
+	ast.Inspect(x, func(n ast.Node) bool {
+		switch y := n.(type) {
+		case *ast.BranchStmt:
+			if y.Tok == token.CONTINUE || y.Tok == token.GOTO {
+				found = true
+			}
+		case *ast.FuncLit:
+			return false
+		}
+		return !found
+	})
+	return !found
 }
 
 func fieldKeyOf(info *types.Info, sx *ast.SelectorExpr) (string, bool, types.Type) {
@@ -215,8 +254,13 @@ func (w *World) scanEffects(info *types.Info, body ast.Node) *Effects {
 			}
 		}
 	}
+	skipRoot := w.skipTerminating
 	ast.Inspect(body, func(n ast.Node) bool {
 		switch x := n.(type) {
+		case *ast.BlockStmt:
+			if skipRoot != nil && x != skipRoot && blockTerminates(x) {
+				return false
+			}
 		case *ast.AssignStmt:
 			if x.Tok != token.DEFINE {
 				for _, l := range x.Lhs {
